@@ -195,6 +195,23 @@ class DictionaryDataBase(DataBase):
                     return True
             return False
 
+    def remove_by_id(self, index: int) -> bool:
+        """
+        Remove the data stored under a given index.
+
+        Parameters
+        ----------
+        index : int
+            Index of the data to be removed.
+
+        Returns
+        -------
+        bool
+            True if an entry was stored under the index.
+        """
+        with self._lock:
+            return self.database.pop(index, None) is not None
+
     def all(self) -> tuple:
         """
         Get all data from the database.
